@@ -135,7 +135,7 @@ theorem compareAttributes_strEq_iff {va vb : Value} {ka kb : List Tree}
   · have : ((attrPairs ka).length != (attrPairs kb).length) = true := by simpa using hlen
     simp [this, hlen]
 
-theorem compareValue_strEq_iff {a b : Tree} (ha : a.value.isNormal = true) (hb : b.value.isNormal = true)
+theorem compareValue_strEq_iff {a b : Tree}
     (oa : kidsOrdered a.kids = true) (ob : kidsOrdered b.kids = true)
     (na : attrNamesNodup a.kids = true) (nb : attrNamesNodup b.kids = true) :
     compareValue strEq a b = true ↔ cvalue a.value a.kids = cvalue b.value b.kids := by
@@ -143,7 +143,7 @@ theorem compareValue_strEq_iff {a b : Tree} (ha : a.value.isNormal = true) (hb :
   obtain ⟨vb, kb⟩ := b
   simp only [Tree.value, Tree.kids] at *
   cases va <;> cases vb <;>
-    simp [compareValue, cvalue, Tree.value, strEq, Value.isNormal, Value.category] at ha hb ⊢
+    simp [compareValue, cvalue, Tree.value, strEq]
   case element.element n m =>
     rw [compareAttributes_strEq_iff oa ob na nb]
     exact fun _ => Iff.rfl
@@ -250,7 +250,7 @@ theorem deepIffCanon (t : Tree) : DeepIffCanon t := by
     obtain ⟨w, js⟩ := j
     obtain ⟨oa, na, _, va⟩ := valid_node vk
     obtain ⟨ob, nb, _, vb⟩ := valid_node vj
-    have hv := compareValue_strEq_iff (a := .node v ks) (b := .node w js) nk nj oa ob na nb
+    have hv := compareValue_strEq_iff (a := .node v ks) (b := .node w js) oa ob na nb
     have hl := forestEqv_projList_iff ks js ih va vb
     rw [proj_allF_normal nk, proj_allF_normal nj]
     simp only [forestEqv, nodeEqv, Bool.and_true, Bool.and_eq_true, Tree.kids, canon, Canon.node.injEq]
